@@ -209,33 +209,43 @@ theorem regLookup_append_left (k : String) (a : Addr) (r1 r2 : List (String × A
     · simp only [hk, if_false] at h ⊢; exact ih h
 
 /-- the registry entries of freshly allocated objects: `id ↦ address`, addresses counted from `base` -/
-def entries (base : Nat) : List Obj → List (String × Addr)
+def entries (base : Nat) : List String → List (String × Addr)
   | [] => []
-  | o :: os => (o.id, base) :: entries (base + 1) os
+  | i :: is => (i, base) :: entries (base + 1) is
 
-theorem entries_append (base : Nat) (xs ys : List Obj) :
+theorem entries_append (base : Nat) (xs ys : List String) :
     entries base (xs ++ ys) = entries base xs ++ entries (base + xs.length) ys := by
   induction xs generalizing base with
   | nil => simp [entries]
   | cons o os ih => simp [entries, ih, Nat.add_assoc, Nat.add_comm 1]
 
-theorem keys_entries (base : Nat) (os : List Obj) : keys (entries base os) = os.map (·.id) := by
-  induction os generalizing base with
+theorem keys_entries (base : Nat) (ids : List String) : keys (entries base ids) = ids := by
+  induction ids generalizing base with
   | nil => rfl
   | cons o os ih => simp [entries, keys] at ih ⊢; exact ih _
 
-/-- `st'` extends `st`: the heap grew by `objs`, and the registry grew by exactly the entries of
-those objects, appended in allocation order.  Nothing was replaced, nothing else was added. -/
+/-- the ids of the objects on the heap, by address -/
+def heapIds (st : St) : List String := st.heap.map (·.id)
+
+theorem heapIds_length (st : St) : (heapIds st).length = st.heap.length := by simp [heapIds]
+
+/-- `st'` extends `st`: the heap grew by objects with ids `ids` (objects already there keep their
+id and address; a self-registering object may get its remaining attributes assigned), and the
+registry grew by exactly one entry `id ↦ address` per new object, appended in allocation order.
+Nothing was replaced, nothing else was added. -/
 def Ext (st st' : St) : Prop :=
-  ∃ objs, st'.heap = st.heap ++ objs ∧ st'.reg = st.reg ++ entries st.heap.length objs
+  ∃ ids, heapIds st' = heapIds st ++ ids ∧ st'.reg = st.reg ++ entries st.heap.length ids
 
 theorem Ext.refl (s : St) : Ext s s := ⟨[], by simp, by simp [entries]⟩
 
 theorem Ext.trans {a b c : St} (h1 : Ext a b) (h2 : Ext b c) : Ext a c := by
   rcases h1 with ⟨o1, hh1, hr1⟩
   rcases h2 with ⟨o2, hh2, hr2⟩
+  have hlen : b.heap.length = a.heap.length + o1.length := by
+    have := congrArg List.length hh1
+    simpa [heapIds_length] using this
   refine ⟨o1 ++ o2, by rw [hh2, hh1, List.append_assoc], ?_⟩
-  rw [hr2, hr1, hh1, entries_append, List.length_append, List.append_assoc]
+  rw [hr2, hr1, hlen, entries_append, List.append_assoc]
 
 def NodupKeys (st : St) : Prop := (keys st.reg).Nodup
 
@@ -246,8 +256,253 @@ theorem Good.preOrd : PreOrd Good where
   refl s := ⟨Ext.refl s, id⟩
   trans h1 h2 := ⟨h1.1.trans h2.1, fun h => h2.2 (h1.2 h)⟩
 
+theorem regLookup_regSet_same (k : String) (a : Addr) (reg : List (String × Addr)) :
+    regLookup k (regSet k a reg) = some a := by
+  induction reg with
+  | nil => simp [regSet, regLookup]
+  | cons e rest ih =>
+    rcases e with ⟨k', a'⟩
+    by_cases hk : k' = k <;> simp [regSet, regLookup, hk, ih]
+
+theorem regSet_same (k : String) (a : Addr) (reg : List (String × Addr))
+    (h : regLookup k reg = some a) : regSet k a reg = reg := by
+  induction reg with
+  | nil => simp [regLookup] at h
+  | cons e rest ih =>
+    rcases e with ⟨k', a'⟩
+    simp only [regLookup] at h
+    by_cases hk : k' = k
+    · simp only [hk, if_true, Option.some.injEq] at h
+      subst h; subst hk
+      simp [regSet]
+    · simp only [hk, if_false] at h
+      simp [regSet, hk, ih h]
+
+/-- allocating a fresh object at the end of the heap and registering it under an id that is free -/
+theorem alloc_good (st1 : St) (id : String) (o : Obj) (ho : o.id = id)
+    (hnone : regLookup id st1.reg = none) :
+    Good st1 { reg := regSet id st1.heap.length st1.reg, heap := st1.heap ++ [o] } := by
+  refine ⟨⟨[id], by simp [heapIds, ho], by simp [entries, regSet_of_none _ _ _ hnone]⟩, ?_⟩
+  intro hnd
+  simp only [NodupKeys, regSet_of_none _ _ _ hnone, keys, List.map_append,
+    List.map_cons, List.map_nil] at hnd ⊢
+  rw [List.nodup_append]
+  refine ⟨hnd, by simp, ?_⟩
+  intro x hx y hy
+  simp at hy
+  subst hy
+  intro hxy
+  subst hxy
+  exact (regLookup_none_iff _ _).mp hnone hx
+
+/-- assigning further attributes to the object at address `a` (same id) and re-registering it under
+its own id at its own address changes neither the ids on the heap nor the registry -/
+theorem finalize_good (st2 : St) (id : String) (a : Addr) (o : Obj) (ho : o.id = id)
+    (hreg : regLookup id st2.reg = some a) (hat : (heapIds st2)[a]? = some id) :
+    Good st2 { reg := regSet id a st2.reg, heap := st2.heap.set a o } := by
+  have hids : heapIds { reg := regSet id a st2.reg, heap := st2.heap.set a o } = heapIds st2 := by
+    simp only [heapIds, List.map_set, ho]
+    apply List.ext_getElem?
+    intro i
+    rw [List.getElem?_set]
+    by_cases hi : a = i
+    · subst hi
+      simp only [heapIds] at hat
+      simp only [if_true]
+      split
+      · exact hat.symm
+      · rename_i hlt
+        simp at hlt
+        rw [List.getElem?_eq_none (by simpa using hlt)] at hat
+        cases hat
+    · simp [hi]
+  refine ⟨⟨[], by simp [hids], by simp [entries, regSet_same _ _ _ hreg]⟩, ?_⟩
+  intro hnd
+  simpa [NodupKeys, regSet_same _ _ _ hreg] using hnd
+
+theorem ext_lookup {st st' : St} (h : Ext st st') (k : String) (a : Addr)
+    (hk : regLookup k st.reg = some a) : regLookup k st'.reg = some a := by
+  rcases h with ⟨ids, _, hr⟩
+  rw [hr]; exact regLookup_append_left _ _ _ _ hk
+
+theorem ext_heapId {st st' : St} (h : Ext st st') (a : Addr) (i : String)
+    (hk : (heapIds st)[a]? = some i) : (heapIds st')[a]? = some i := by
+  rcases h with ⟨ids, hh, _⟩
+  rw [hh]
+  have hlt : a < (heapIds st).length := by
+    by_contra hn
+    rw [List.getElem?_eq_none (Nat.le_of_not_lt hn)] at hk
+    cases hk
+  rw [List.getElem?_append_left hlt]; exact hk
+
+theorem alloc_heapId (reg : List (String × Addr)) (heap : List Obj) (o : Obj) :
+    (heapIds { reg := reg, heap := heap ++ [o] })[heap.length]? = some o.id := by
+  simp [heapIds]
+
+theorem isSome_false_none {α} (o : Option α) (h : ¬ o.isSome = true) : o = none := by
+  cases o <;> simp_all
+
+theorem constructPlain_good (cfg : Cfg) (hc : cfg.checkAfter = true) (tbl : ClassTable)
+    {f : Json ν → St → Except Err (Addr × St)} (hf : Establishes Good f)
+    (c : ClassSpec) (id : String) (data : List (String × Json ν)) (st : St) (a : Addr) (st' : St)
+    (h : constructPlain cfg tbl f c id data st = .ok (a, st')) : Good st st' := by
+  unfold constructPlain at h
+  split at h
+  · cases h
+  · rename_i kids st1 hs
+    have hg : Good st st1 := processSlots_rel Good.preOrd tbl hf _ _ _ _ _ _ _ hs
+    simp only [hc, Bool.true_and] at h
+    split at h
+    · cases h
+    · rename_i hno
+      cases h
+      exact Good.preOrd.trans hg (alloc_good st1 _ _ rfl (isSome_false_none _ hno))
+
+theorem constructSelf_good (cfg : Cfg) (tbl : ClassTable)
+    {f : Json ν → St → Except Err (Addr × St)} (hf : Establishes Good f)
+    (c : ClassSpec) (k : Nat) (id : String) (data : List (String × Json ν)) (st : St) (a : Addr) (st' : St)
+    (h : constructSelf cfg tbl f c k id data st = .ok (a, st')) : Good st st' := by
+  unfold constructSelf at h
+  split at h
+  · cases h
+  · rename_i kids1 st1 hs1
+    have hg1 : Good st st1 := processSlots_rel Good.preOrd tbl hf _ _ _ _ _ _ _ hs1
+    split at h
+    · cases h
+    · rename_i hno
+      have hnone := isSome_false_none _ hno
+      simp only at h
+      split at h
+      · cases h
+      · rename_i kids2 st2 hs2
+        have hg2 := processSlots_rel Good.preOrd tbl hf _ _ _ _ _ _ _ hs2
+        have hga := alloc_good st1 id ⟨c.name, id, ((c.slots.map slotKey).take k).zip kids1⟩ rfl hnone
+        have hreg2 := ext_lookup hg2.1 _ _ (regLookup_regSet_same id st1.heap.length st1.reg)
+        have hat2 := ext_heapId hg2.1 _ _ (alloc_heapId (regSet id st1.heap.length st1.reg) st1.heap
+          ⟨c.name, id, ((c.slots.map slotKey).take k).zip kids1⟩)
+        split at h
+        · cases h
+        · cases h
+          exact Good.preOrd.trans hg1 (Good.preOrd.trans hga (Good.preOrd.trans hg2
+            (finalize_good st2 id _ _ rfl hreg2 hat2)))
+
+/-! ## references (plain and `stem{a:b}`) are stable under registry growth -/
+
+theorem rangeFold_error (g : Nat → Option Addr) (s : String) (e : Err) :
+    ∀ l, rangeFold g s l (.error e) = .error e := by
+  intro l
+  induction l with
+  | nil => rfl
+  | cons i l ih => simpa [rangeFold] using ih
+
+theorem rangeFold_mono (g g' : Nat → Option Addr) (s : String)
+    (hgg : ∀ i x, g i = some x → g' i = some x) :
+    ∀ (l : List Nat) (acc : Except Err (Option Addr)) (o : Option Addr),
+      rangeFold g s l acc = .ok o → rangeFold g' s l acc = .ok o := by
+  intro l
+  induction l with
+  | nil => intro acc o h; simpa [rangeFold] using h
+  | cons i l ih =>
+    intro acc o h
+    cases acc with
+    | error e =>
+      have := rangeFold_error g s e (i :: l)
+      rw [this] at h; cases h
+    | ok v =>
+      have step : ∀ g0 : Nat → Option Addr, rangeFold g0 s (i :: l) (.ok v) =
+          rangeFold g0 s l (match g0 i with | some x => .ok (some x) | none => .error (.notFound s)) := by
+        intro g0; rfl
+      rw [step] at h ⊢
+      cases hg : g i with
+      | none =>
+        simp only [hg] at h
+        rw [rangeFold_error] at h; cases h
+      | some x =>
+        simp only [hg, hgg i x hg] at h ⊢
+        exact ih _ _ h
+
+theorem resolveRange_mono (s : String) (reg reg' : List (String × Addr)) (a : Addr)
+    (hm : ∀ k x, regLookup k reg = some x → regLookup k reg' = some x)
+    (h : resolveRange s reg = .ok a) : resolveRange s reg' = .ok a := by
+  unfold resolveRange at h ⊢
+  cases hp : parseRangeRef s with
+  | none => simp [hp] at h
+  | some t =>
+    rcases t with ⟨stem, a0, b0⟩
+    simp only [hp] at h ⊢
+    cases hf : rangeFold (fun i => regLookup (stem ++ toString (a0 + (i : Int))) reg) s
+        (List.range (b0 - a0).toNat) (.ok none) with
+    | error e => rw [hf] at h; cases h
+    | ok o =>
+      have hfold := rangeFold_mono
+        (fun i => regLookup (stem ++ toString (a0 + (i : Int))) reg)
+        (fun i => regLookup (stem ++ toString (a0 + (i : Int))) reg') s
+        (fun i x hx => hm _ x hx) (List.range (b0 - a0).toNat) (.ok none) o hf
+      rw [hf] at h
+      rw [hfold]
+      exact h
+
+/-- a reference (either form) that resolved keeps resolving to the same address after the
+registry has grown -/
+theorem resolveRef_mono (s : String) (reg reg' : List (String × Addr)) (a : Addr)
+    (hm : ∀ k x, regLookup k reg = some x → regLookup k reg' = some x)
+    (h : resolveRef s reg = .ok a) : resolveRef s reg' = .ok a := by
+  unfold resolveRef at h ⊢
+  by_cases hc : s.toList.contains '{' = true
+  · simp only [hc, if_true] at h ⊢
+    exact resolveRange_mono s reg reg' a hm h
+  · have hc' : s.toList.contains '{' = false := by simpa using hc
+    simp only [hc', Bool.false_eq_true, if_false] at h ⊢
+    cases hl : regLookup s reg with
+    | none => simp [hl] at h
+    | some x =>
+      simp only [hl, Except.ok.injEq] at h
+      subst h
+      simp [hm s x hl]
+
+/-- a constructed object sits at the returned address, carries the literal's id and is registered
+under it -/
+theorem constructObject_registers (cfg : Cfg) (tbl : ClassTable)
+    {f : Json ν → St → Except Err (Addr × St)} (hf : Establishes Good f)
+    (c : ClassSpec) (id : String) (data : List (String × Json ν)) (st : St) (a : Addr) (st' : St)
+    (h : constructObject cfg tbl f c id data st = .ok (a, st')) :
+    regLookup id st'.reg = some a ∧ (heapIds st')[a]? = some id := by
+  unfold constructObject at h
+  split at h
+  · unfold constructPlain at h
+    split at h
+    · cases h
+    · split at h
+      · cases h
+      · cases h
+        exact ⟨regLookup_regSet_same _ _ _, alloc_heapId _ _ _⟩
+  · rename_i k _
+    unfold constructSelf at h
+    split at h
+    · cases h
+    · rename_i kids1 st1 hs1
+      split at h
+      · cases h
+      · simp only at h
+        split at h
+        · cases h
+        · rename_i kids2 st2 hs2
+          have hg2 := processSlots_rel Good.preOrd tbl hf _ _ _ _ _ _ _ hs2
+          have hat2 := ext_heapId hg2.1 _ _ (alloc_heapId (regSet id st1.heap.length st1.reg) st1.heap
+            ⟨c.name, id, ((c.slots.map slotKey).take k).zip kids1⟩)
+          split at h
+          · cases h
+          · cases h
+            refine ⟨regLookup_regSet_same _ _ _, ?_⟩
+            have hlt : st1.heap.length < st2.heap.length := by
+              by_contra hn
+              rw [List.getElem?_eq_none (by simpa [heapIds_length] using Nat.le_of_not_lt hn)] at hat2
+              cases hat2
+            simp [heapIds, hlt]
+
 /-- **core step**: with the duplicate test standing between construction and registration,
-every successful `process_object` extends the state and keeps the registry keys distinct -/
+every successful `process_object` extends the state and keeps the registry keys distinct —
+for ordinary classes and for classes whose `from_json` registers the object itself -/
 theorem processObject_good (cfg : Cfg) (hc : cfg.checkAfter = true) (tbl : ClassTable) :
     ∀ fuel, Establishes (ν := ν) Good (processObject cfg tbl fuel) := by
   intro fuel
@@ -264,45 +519,17 @@ theorem processObject_good (cfg : Cfg) (hc : cfg.checkAfter = true) (tbl : Class
     · -- object literal
       split at h
       · cases h
-      · rename_i id hid
-        split at h
+      · split at h
         · cases h
         · split at h
           · cases h
-          · rename_i ty hty
-            split at h
+          · split at h
             · cases h
-            · rename_i c hc'
+            · rename_i c _
+              unfold constructObject at h
               split at h
-              · -- from_json failed
-                rename_i e he
-                split at h
-                · split at h <;> cases h
-                · split at h <;> cases h
-              · rename_i kids st1 hs
-                have hg : Good st st1 := processSlots_rel Good.preOrd tbl ih _ _ _ _ _ _ _ hs
-                simp only [hc, Bool.true_and] at h
-                split at h
-                · cases h
-                · rename_i hno
-                  cases h
-                  have hnone : regLookup id st1.reg = none := by
-                    cases hl : regLookup id st1.reg with
-                    | none => rfl
-                    | some x => simp [hl] at hno
-                  refine Good.preOrd.trans hg ⟨⟨[⟨c.name, id, _⟩], rfl, ?_⟩, ?_⟩
-                  · simp [entries, regSet_of_none _ _ _ hnone]
-                  · intro hnd
-                    simp only [NodupKeys, regSet_of_none _ _ _ hnone, keys, List.map_append,
-                      List.map_cons, List.map_nil] at hnd ⊢
-                    rw [List.nodup_append]
-                    refine ⟨hnd, by simp, ?_⟩
-                    intro x hx y hy
-                    simp at hy
-                    subst hy
-                    intro hxy
-                    subst hxy
-                    exact (regLookup_none_iff _ _).mp hnone hx
+              · exact constructPlain_good cfg hc tbl ih c _ _ _ _ _ h
+              · exact constructSelf_good cfg tbl ih c _ _ _ _ _ _ h
           · cases h
       · cases h
     · cases h
